@@ -7,6 +7,16 @@
 (* parents that already contributed (and only those) are rewound and the round    *)
 (* restarts at the earlier time.  Parents whose next point is later than the      *)
 (* round's time are skipped without being consumed.                               *)
+(* A member batch may be PRESENT BUT EMPTY (p = <<>>: begin/end without points,  *)
+(* e.g. an upstream where dropped everything): it is exhausted at once and its     *)
+(* parent is missing from every joined point exactly like a parent without a batch *)
+(* - filled in an outer join, fatal for the point in an inner join.                *)
+(* Field names for filling (fieldNames): copied from the FIRST POINT MATCHED, i.e.  *)
+(* the first point of the lowest-index member that has a point at all - not from    *)
+(* js.First(), which may be an empty batch.  fn = 0 while no names are known; a     *)
+(* point joined then would lack the filled fields (logged as -2).  The first point  *)
+(* a round looks at always takes the "equal" branch, so names are known before      *)
+(* anything is emitted (BatchPairing proves it).                                    *)
 (* members: [1..n -> batch message [v, p] or [v |-> 0] (no batch from that parent)] *)
 (* Result: the sequence of joined points [t, vals] in emission order.             *)
 EXTENDS JURef
@@ -37,23 +47,27 @@ BRound(members, cfg, i, st) ==
                                   !.count = 1])
           ELSE IF t = st0.setTime
           THEN BRound(members, cfg, i + 1,
-                      [st0 EXCEPT !.idx[i] = @ + 1, !.set[i] = bp, !.count = @ + 1])
+                      [st0 EXCEPT !.idx[i] = @ + 1, !.set[i] = bp, !.count = @ + 1,
+                                  !.fn = IF @ = 0 THEN i ELSE @])
           ELSE BRound(members, cfg, i + 1, st0)      \* later than this round's time: not consumed
 
-RECURSIVE BLoop(_, _, _, _, _)
-BLoop(members, cfg, idx, empty, fuel) ==
+NoNames == -2     \* a filled field that is not there at all
+
+RECURSIVE BLoop(_, _, _, _, _, _)
+BLoop(members, cfg, idx, empty, fn, fuel) ==
     LET n == Len(members)
     IN IF Cardinality({ i \in 1..n : empty[i] }) = n \/ fuel = 0 THEN <<>>
        ELSE LET st == BRound(members, cfg, 1,
-                             [idx |-> idx, empty |-> empty, set |-> [i \in 1..n |-> BNil], setTime |-> 0, count |-> 0])
+                             [idx |-> idx, empty |-> empty, set |-> [i \in 1..n |-> BNil], setTime |-> 0, count |-> 0, fn |-> fn])
                 complete == \A i \in 1..n : st.set[i] # BNil
                 point == [t |-> st.setTime,
-                          vals |-> [i \in 1..n |-> IF st.set[i] = BNil THEN FillVal(cfg) ELSE st.set[i].v]]
+                          vals |-> [i \in 1..n |-> IF st.set[i] # BNil THEN st.set[i].v
+                                                   ELSE IF st.fn = 0 THEN NoNames ELSE FillVal(cfg)]]
                 here == IF st.count = 0 \/ (cfg.fill = "none" /\ ~complete) THEN <<>> ELSE << point >>
-            IN here \o BLoop(members, cfg, st.idx, st.empty, fuel - 1)
+            IN here \o BLoop(members, cfg, st.idx, st.empty, st.fn, fuel - 1)
 
 JoinIntoBatch(members, cfg) ==
     LET n == Len(members)
         total == Len(members) + Cardinality({ <<i, k>> \in (1..n) \X (1..8) : members[i].v # 0 /\ k <= Len(members[i].p) })
-    IN BLoop(members, cfg, [i \in 1..n |-> 0], [i \in 1..n |-> FALSE], 2 * total + 2)
+    IN BLoop(members, cfg, [i \in 1..n |-> 0], [i \in 1..n |-> FALSE], 0, 2 * total + 2)
 =============================================================================
